@@ -61,6 +61,12 @@ prop("C07", stems=["SO3Quat", "SO3Mrp", "SO3Dcm", "SO3Euler"], props=["Props/C07
      technique="Coq proof (field/lra/nsatz, sqrt lemmas) over a model regenerated from source by a translator",
      explanation="conversion identities for all valid source elements")
 
+prop("C10", stems=["Util"], props=["Props/C10.v"], falsify="falsify_C10", expected_extract_errors=["sqrt_cov_predict_1"],
+     level_text="Kernel-checked on regenerated instances: LDL^T and UDU^T reconstruct their symmetric input with unit-triangular factors for n = 1..5 (non-zero pivots); the RK4 step is the classical tableau (as a higher-order Coq function), exact when the derivative is a cubic polynomial in time, and equals the degree-4 Taylor polynomial on y' = lam y and y' = A y (2x2), for all step sizes; the square-root covariance derivative satisfies W'W^T + W W'^T = F P + P F^T + Q and is lower triangular for n = 2, 3 with dense F and symmetric Q (diag W non-zero); the square-root measurement update satisfies all three identities for n = m = 1. Partial: 'for all n' is these instances (no induction over n); sqrt_correct beyond 1x1 (nested Gram-Schmidt square roots) and the shipped 6x6 instances are covered by the numeric search only (the attempted (2,1)/(2,2) proofs exceeded the time budget); n = 1 of sqrt_covariance_predict raises inside CasADi (recorded, not claimed).",
+     level_note=GEN_NOTE,
+     technique="Coq proof (field/ring with pivot abstraction, sqrt_sqrt) over instances regenerated from source by a translator",
+     explanation="numerical-linear-algebra identities for all matrix entries of each instance size")
+
 prop("C16", stems=["Quadrotor"], props=["Props/C16.v"], falsify="falsify_C16",
      level_text="Kernel-checked theorems over the regenerated real-number model of quadrotor.derive_model(): q.qdot=0, quaternion and position kinematics, hover equilibrium, free-fall accelerometer, rotor-sum wrench (Euler and Newton equations), motor first-order law, translation and yaw equivariance, for ALL states, inputs and parameter vectors (parameters are symbolic). Not proved: the exponential closed-form motor response (only the ODE right-hand side), drag-on branch of the force sum.",
      level_note=GEN_NOTE + "Numeric search on the real functions (harness/falsify_C16.py) supports replay generation only.",
